@@ -224,7 +224,7 @@ func (s *Session) startDelivery(ctx context.Context, from string, opts smtp.Mail
 	// used.
 	if !opts.UTF8 {
 		for _, ch := range from {
-			if ch > 128 {
+			if ch >= 128 {
 				return "", &exterrors.SMTPError{
 					Code:         550,
 					EnhancedCode: exterrors.EnhancedCode{5, 6, 7},
@@ -643,7 +643,7 @@ func (endp *Endpoint) wrapErr(msgId string, mangleUTF8 bool, command string, err
 		b := strings.Builder{}
 		b.Grow(len(res.Message))
 		for _, ch := range res.Message {
-			if ch > 128 {
+			if ch >= 128 {
 				b.WriteRune('?')
 			} else {
 				b.WriteRune(ch)
